@@ -29,7 +29,10 @@ const (
 	replyNotFound
 	replyStale
 	replyDead
+	replyDeadline // the request timed out (error wraps context.DeadlineExceeded) although the caller's context is alive
 )
+
+var errInjectedTimeout = fmt.Errorf("injected RPC timeout (Client.Timeout exceeded while awaiting headers): %w", context.DeadlineExceeded)
 
 var errInjectedRPC = errors.New("injected transient RPC error")
 var errWorldDead = fmt.Errorf("node stopped: %w", context.Canceled)
@@ -257,6 +260,9 @@ func (c *FakeClient) HeaderByNumber(ctx context.Context, number *big.Int) (*type
 	case replyTransient:
 		c.obs("HeaderByNumber", desc, mode, nil)
 		return nil, errInjectedRPC
+	case replyDeadline:
+		c.obs("HeaderByNumber", desc, mode, nil)
+		return nil, errInjectedTimeout
 	case replyNotFound:
 		c.obs("HeaderByNumber", desc, mode, nil)
 		return nil, ethereum.NotFound
@@ -313,6 +319,9 @@ func (c *FakeClient) FilterLogs(ctx context.Context, q ethereum.FilterQuery) ([]
 	case replyTransient, replyNotFound:
 		c.obs("FilterLogs", desc, mode, nil)
 		return nil, errInjectedRPC
+	case replyDeadline:
+		c.obs("FilterLogs", desc, mode, nil)
+		return nil, errInjectedTimeout
 	}
 	view, _, _ := c.view(mode)
 	from, to := uint64(0), uint64(len(view)-1)
